@@ -503,6 +503,7 @@ package bchutil
 //@   ensures err == nil ==> *unbox(r, "bytes.*Reader") == old(*unbox(r, "bytes.*Reader")) - wire.bsize(result0.msgBlock.ref, result0.msgBlock.off) && *unbox(r, "bytes.*Reader") >= 0
 //@   ensures err == nil ==> forall k :: 0 <= k && k < len(result0.msgBlock.Transactions) ==> result0.msgBlock.Transactions[k] != nil
 //@   ensures err != nil ==> result0 == nil
+//@   ensures *unbox(r, "bytes.*Reader") <= old(*unbox(r, "bytes.*Reader"))
 //@   modifies *unbox(r, "bytes.*Reader")
 
 //@ func bchutil.NewBlockFromBytes
